@@ -289,6 +289,9 @@ class FnObj(Fn):
         if isinstance(s, ast.Assign):
             if isinstance(s.value, ast.Constant) and s.value.value is None:
                 return []
+            if isinstance(s.value, (ast.Name, ast.Attribute)) and self.ekind(s.value, env) == 'opt' \
+                    and len(s.targets) == 1 and isinstance(s.targets[0], ast.Name) and env.get(s.targets[0].id) is None:
+                return []                                 # y = x: the optional value gets another name, it is not used
             walk(s.value)
             for t in s.targets:
                 if isinstance(t, ast.Subscript):
@@ -374,7 +377,8 @@ class FnObj(Fn):
             if isinstance(i, ast.UnaryOp) and isinstance(i.op, ast.USub) and isinstance(i.operand, ast.Constant) \
                     and i.operand.value == 1:
                 return '(List.getLastD %s (0 : α))' % self.lexpr(node.value, env)
-            if self.is_nat(i, env):
+            if self.is_nat(i, env) and not any(isinstance(n, ast.Sub) for n in ast.walk(i)):
+                # (no subtraction in the index: a negative Python index counts from the end, Lean's `Nat` subtraction stops at 0)
                 return '(List.getD %s %s (0 : α))' % (self.lexpr(node.value, env), self.nat(i, env))
             self.fail(node, 'unsupported list index')
         if isinstance(node, ast.Call) and isinstance(node.func, ast.Attribute) \
@@ -845,7 +849,8 @@ class FnObj(Fn):
             return '%slet %s := %s ++ [%s]\n' % (ind, v, v, self.expr(s.value.args[0], env)), False
         if isinstance(s, ast.Assign) and len(s.targets) == 1 and isinstance(s.targets[0], ast.Subscript) \
                 and isinstance(s.targets[0].value, ast.Name) and env.get(s.targets[0].value.id) == 'list' \
-                and self.is_nat(s.targets[0].slice, env):
+                and self.is_nat(s.targets[0].slice, env) \
+                and not any(isinstance(n, ast.Sub) for n in ast.walk(s.targets[0].slice)):
             # l[i] = e (IndexError outside the list in Python; `List.set` leaves the list alone there — the tie states the guard)
             v = self.var(s.targets[0].value.id)
             e = self.expr(s.value, env)
@@ -875,6 +880,15 @@ class FnObj(Fn):
                 txt += '%slet %s := %s\n' % (ind, self.var(t.id), nm)
                 env[t.id] = k
             return txt, False
+        if isinstance(s, ast.Assign) and len(s.targets) == 1 and isinstance(s.targets[0], ast.Name) \
+                and isinstance(s.value, (ast.Name, ast.Attribute)) and env.get(s.targets[0].id) is None \
+                and (str(self.ekind(s.value, env)).startswith(('obj:', 'objlist:'))
+                     or self.ekind(s.value, env) in ('natlist', 'list2', 'opt')):
+            # y = x for an object / index array / 2-D array / optional value: another name for the same value
+            k = self.ekind(s.value, env)
+            self.need_attr(self.key_of(s.value), env)
+            env[s.targets[0].id] = k
+            return '%slet %s := %s\n' % (ind, self.var(s.targets[0].id), self.var(self.key_of(s.value))), False
         if isinstance(s, ast.Assign) and len(s.targets) == 1 and isinstance(s.targets[0], ast.Name):
             t = s.targets[0]
             if isinstance(s.value, ast.Constant) and s.value.value is None:
